@@ -18,7 +18,7 @@ func init() {
 		Explanation: "DECIDED (typestate and path rules): sniff-and-replay (in DecoderFor the source reader is used only as the source of an io.TeeReader into the one local buffer placed after a reader over the buffer's current contents, or as the element following the buffer in the MultiReader given to the selected factory; never handed to a factory directly; the buffer is never reset) so every byte consumed while sniffing is replayed exactly once; the decoder is returned only on the err == nil edge of the trial decode and built by the same factory that succeeded; fall-through returns nil; the factory list is the fixed literal {gob, JSON, CSV}; decoder(files) appends exactly one decoder and closer per file or returns an error, and a nil from DecoderFor takes the error path; decode loops of encode/report/plot use a fresh zero Result per iteration (gob omits zero fields, the CSV decoder leaves Headers untouched, so a reused struct carries fields over), consume it exactly once on the err == nil edge, end on io.EOF with nil and return any other error; the -to table maps csv/gob/json to their encoders and rejects anything else; gob closures encode/decode their argument directly; transcoding-agreement (shared with C07/C09): the JSON writer/reader tables and the CSV column tables of Result agree field by field with inverse conversions, and the JSON decoder parses only whole, copied, newline-terminated lines. " +
 			"NOT DECIDED: that a trial decoder rejects foreign input is library behaviour.",
 		Assumptions: []string{"io.TeeReader/io.MultiReader/bytes.Buffer semantics", "gob/CSV/JSON decoders fail on input in another format"},
-		MinObs:      7,
+		MinObs:      30,
 		Run:         runC08,
 	})
 	register(&propSpec{
@@ -27,7 +27,7 @@ func init() {
 		Explanation: "DECIDED (path rules): one whole record per Encode call (CSV: every nil-returning path passes one csv.Writer.Write then Flush and returns the writer's Error; JSON: the only write to the underlying writer is one DumpTo after the record and its '\\n' were appended in memory, nothing is dumped on the error path and the sticky error is never cleared; gob: one Encoder.Encode of the argument); the JSON decoder unmarshals only a line obtained from a copying, newline-terminated read (ReadBytes/ReadString('\\n')) on the err == nil edge; gob decoder decodes straight into the caller's Result (no retained scratch value); callers (encode, report, plot, round-robin) use a decoded Result only on the err == nil edge of the Decode that filled it, with a fresh Result per iteration; the attack command writes each result as it arrives (C02 cli-pump). " +
 			"NOT DECIDED: behaviour at each byte offset inside gob length prefixes, CSV quoting and base64 runs is encoding/* behaviour.",
 		Assumptions: []string{"encoding/gob frames messages atomically; bufio.Reader.ReadBytes returns an error for an unterminated final line"},
-		MinObs:      8,
+		MinObs:      9,
 		Run:         runC09,
 	})
 	register(&propSpec{
